@@ -53,15 +53,16 @@ def check_c19(prop, tier):
     try:
         res.add(build_s=round(build_harness(), 1))
         maxlen = "6" if tier == "quick" else "8"
-        cfg = write_cfg(work, "mc", "QueueSeq", subst={"MaxLen": maxlen, "EmitReplays": "TRUE"}, add=["INVARIANT Inv_Emit"])
+        cfg = write_cfg(work, "mc", "QueueSeq", subst={"MaxLen": maxlen, "EmitEdges": "TRUE"})
         r = require_ok(tlc("QueueSeqMC", cfg, work, workers=8, timeout=3000), "model check of C19")
         res.add(states=r["distinct"], transitions=r["generated"], depth=r["depth"], checker_cmd="tlc QueueSeqMC MaxLen=%s INVARIANT Inv_C19 Inv_Struct" % maxlen)
         cfgw = write_cfg(work, "mcw", "QueueSeq", subst={"MaxLen": "5"}, drop=["Inv_C19"], add=["INVARIANT Inv_C19raw"])
         rw = tlc("QueueSeqMC", cfgw, work, workers=8, timeout=3000)
         if "Inv_C19raw" not in rw["violated"]:
             raise ToolError("the queue model no longer contains the stale-ticket deviation: the KF classification would be vacuous")
-        replays = r["prints"].get("REPLAY", [])
-        cap = 600 if tier == "quick" else 8000
+        replays = r["prints"].get("EDGE", [])     # one call sequence per generated transition (edge cover)
+        res.add(model_transitions_emitted=len(replays))
+        cap = 1500 if tier == "quick" else 40000
         if len(replays) > cap:
             step = len(replays) // cap + 1
             replays = replays[rng.below(step)::step]
